@@ -186,9 +186,9 @@ class Orbital(object):
 
         # Return if z within 1 km of an
         if np.abs(pos0[2]) < 1:
-            return t_old
+            return self._refine_an_time(t_old)
         elif np.abs(pos1[2]) < 1:
-            return t_new
+            return self._refine_an_time(t_new)
 
         # Bisect to z within 1 km
         while np.abs(pos1[2]) > 1:
@@ -201,7 +201,12 @@ class Orbital(object):
             else:
                 t_new = t_mid
 
-        return t_mid
+        return self._refine_an_time(t_mid)
+
+    def _refine_an_time(self, t_an):
+        """Move a time within 1 km of the ascending node onto the node (one Newton step on z)."""
+        pos, vel = self.get_position(t_an, normalize=False)
+        return t_an - np.timedelta64(int(round(pos[2] / vel[2] * 1e6)), "us")
 
     def get_position(self, utc_time, normalize=True):
         """Get the cartesian position and velocity from the satellite."""
